@@ -27,6 +27,7 @@ def units(tier):
     add("D=2 cancel=0 stubborn=1", D=2, cancel=0, stubborn=1, shields=(False, False))
     add("D=2 cancel=1 stubborn=1", D=2, cancel=1, stubborn=1, shields=(False, False))
     add("D=2 pre_cancel=1", D=2, pre_cancel=1)
+    add("D=2 cancel=0 child eager", D=2, cancel=0, in_child=True, eager=True)
     add("D=2 pre_cancel=0 toggle", D=2, pre_cancel=0, toggle=(1, False), shields=(False, True))
     add("D=2 cancel=0 unshield-inner", D=2, cancel=0, toggle=(1, False), shields=(False, True), J=1)
     add("D=3 cancel=0", D=3, cancel=0, J=1, post0=quick)
